@@ -3,7 +3,7 @@
    types; andb/orb inlined) and ExtrOcamlString (ascii => char, string => char list). nat, N, Z, positive
    stay the extracted inductive datatypes. *)
 From Coq Require Import Extraction ExtrOcamlBasic ExtrOcamlString.
-From GV Require Import Base.Util Spec.Smiles Spec.Chem Spec.Iso Model.PyLite Gen.Converter.
+From GV Require Import Base.Util Spec.Smiles Spec.Chem Spec.Iso Model.PyLite Gen.Converter Gen.Tables Model.Library.
 Extraction Language OCaml.
 Extraction "../_build/extracted/gv.ml"
   Util.s2l Util.nat2str Util.str2nat
@@ -11,4 +11,6 @@ Extraction "../_build/extracted/gv.ml"
   Chem.formula Chem.charge Chem.n_rings Chem.n_components Chem.n_heavy Chem.mol_valid Chem.smiles_valid
   Chem.no_markers Chem.elements_ok Chem.all_valences_ok Chem.no_empty_branch Chem.total_h Chem.degree Chem.no_dup_bonds
   PyLite.call PyLite.call_gen Converter.program Converter.generator_functions PyLite.py_strip
+  Library.library_issues Library.library_issues_fast Library.issue_text Library.check_distinct Library.check_mirror Library.anomeric_sites Library.reduce_open Library.flip_all
+  Tables.pyranoses Tables.furanoses Tables.opens Tables.functional_groups
   Iso.same_molecule Iso.same_constitution Iso.mirror_image Iso.iso_profiles Iso.strip_h.
